@@ -226,6 +226,21 @@ def check(ctx):
                    facts={"log_ratio": short(L, 300)})
             # the guarded value (#0) feeds exp, the code (#1) feeds the info
             guarded_val = ("proj", gterm, 0)
+            expg = ("call", ("g", "jax.numpy.exp"), (guarded_val,), ())
+            forms = {
+                ("call", ("g", "jax.numpy.clip"), (expg,), (("max", c(1.0)),)),
+                ("call", ("g", "jax.numpy.clip"), (expg,), (("max", c(1)),)),
+                ("call", ("g", "jax.numpy.minimum"), (expg, c(1.0)), ()),
+                ("call", ("g", "jax.numpy.minimum"), (c(1.0), expg), ()),
+                ("call", ("g", "jax.numpy.exp"),
+                 (("call", ("g", "jax.numpy.minimum"), (guarded_val, c(0.0)), ()),), ()),
+            }
+            if not log_form:
+                ctx.ob("C05.R2", fi, "acceptance probability = min(1, exp(guarded log ratio "
+                                     "INCLUDING the correction)) -- no shortcut that bypasses "
+                                     "the correction", prob_t in forms,
+                       detail=f"acceptance probability is {short(prob_t, 200)}",
+                       stmt="prob form " + pretty(prob_t)[:200])
             iv = IntervalEval({guarded_val: (-INF, INF, False) if guarded_ok
                                else (-INF, INF, True)})
             lo, hi, nan = iv.ev(prob_t)
